@@ -217,83 +217,88 @@ theorem period_limiters_with_other_prefix_independent (s : Store) (pre pre' key 
     (periodScript s (pre' ++ key') q w).1.clock = s.clock :=
   periodScript_other s (pre ++ key) (pre' ++ key') q w h
 
-/-! ## a window per take: `Align()` over a whole run -/
+/-! ## a window (and a limit) per take: `Align()` and several limiters over a whole run -/
 
-/-- **Refinement with a window per take.** For every quota and EVERY sequence of takes — each carrying the window
-(≥ 1 s) that ITS `calcExpireSeconds()` computed —, clock advances, outages and recoveries from the empty store, the
-replies of the model are those of the specification by lives: a life per key starts at the take that finds no running
-life and ends exactly `w` seconds later, `w` being the window of THAT take (the windows later takes of the life compute
-are irrelevant); its i-th take is answered `codeOf quota i`; takes during an outage are `(Unknown, err)` and do not count.
-This is the specification the driver's monitor evaluates on aligned sections. -/
-theorem period_refines_spec_windows (quota : Nat) (ops : List POpW) (hw : WinOk ops) :
-    PSys.runW quota PSys.init ops = SpecSysW.run quota SpecSysW.init ops :=
-  period_refines_spec_windows_from quota ops PSys.init SpecSysW.init hw ⟨rfl, rfl, fun _ => rfl⟩
+/-- **Refinement with a window and a limit per take.** For EVERY sequence of takes — each carrying the limit of ITS
+limiter and the window (≥ 1 s) that ITS `calcExpireSeconds()` computed —, clock advances, outages and recoveries from the
+empty store, the replies of the model are those of the specification by lives: a life per Redis key starts at the take
+that finds no running life and ends exactly `w` seconds later, `w` being the window of THAT take (the windows later takes
+of the life compute are irrelevant); its i-th take is answered `codeOf quota i` with the quota of the limiter that takes;
+takes during an outage are `(Unknown, err)` and do not count.  This is the specification the driver's monitor evaluates
+on aligned sections and on sections with several limiters. -/
+theorem period_refines_spec_windows (ops : List POpW) (hw : WinOk ops) :
+    PSys.runW PSys.init ops = SpecSysW.run SpecSysW.init ops :=
+  period_refines_spec_windows_from ops PSys.init SpecSysW.init hw ⟨rfl, rfl, fun _ => rfl⟩
 
-example : PSys.runW 2 PSys.init [.take "a" 3, .take "a" 1, .ft 1000, .take "a" 1, .ft 2000, .take "a" 2, .ft 1999, .take "a" 9]
+example : PSys.runW PSys.init [.take "a" 2 3, .take "a" 2 1, .ft 1000, .take "a" 2 1, .ft 2000, .take "a" 2 2, .ft 1999, .take "a" 2 9,
+      .take "b" 1 5]
     = [some (.allowed, .nil), some (.hitQuota, .nil), none, some (.overQuota, .nil), none, some (.allowed, .nil), none,
-       some (.hitQuota, .nil)] := by decide
+       some (.hitQuota, .nil), some (.hitQuota, .nil)] := by decide
 
-/-- what a caller does with a constructed limiter: takes (the limiter reads the local clock: `unix`), and the
-environment: clock advances of the store, outages, recoveries -/
+/-- what callers do with constructed limiters on ONE store: takes (each through some limiter `l`, which reads the local
+clock: `unix`), and the environment: clock advances of the store, outages, recoveries -/
 inductive PApiOp where
   | ft (ms : Nat)
-  | take (key : String) (unix : Int)
+  | take (l : PLim) (key : String) (unix : Int)
   | down
   | up
   deriving Repr, DecidableEq
 
-/-- the operation on the store a constructed limiter turns it into (`none`: the take panics) -/
-def _root_.GoZero.C03.PLim.toW (l : PLim) : PApiOp → Option POpW
+/-- the operation on the store a take through limiter `l` is (`none`: the take panics) -/
+def PApiOp.toW : PApiOp → Option POpW
   | .ft ms => some (.ft ms)
-  | .take key unix => (calcExpireZ l.align l.period unix).map fun w => .take (l.pre ++ key) w.toNat
+  | .take l key unix => (calcExpireZ l.align l.period unix).map fun w => .take (l.pre ++ key) l.quota.toNat w.toNat
   | .down => some .down
   | .up => some .up
 
-def clocksOk (ops : List PApiOp) : Prop := ∀ k u, PApiOp.take k u ∈ ops → 0 ≤ u
+/-- every limiter was built by the constructor with a period ≥ 1, every clock reading is non-negative -/
+def apiOk (ops : List PApiOp) : Prop :=
+  ∀ l k u, PApiOp.take l k u ∈ ops → 0 ≤ u ∧ ∃ period quota pre opts, 1 ≤ period ∧ l = newPeriodLimit period quota pre opts
 
-/-- **The whole public API of PeriodLimit refines the specification by lives**: for EVERY constructor argument list
-with `period ≥ 1` (any quota, prefix, any option list — aligned or not) and every sequence of takes at arbitrary
-non-negative local clock readings, store clock advances, outages and recoveries: no take panics, every window is
-`1 … period` seconds, and the replies are those of the specification by lives on the Redis keys `keyPrefix + key` with
-limit `quota`. -/
-theorem period_api_refines_spec (period quota : Int) (pre : String) (opts : List POpt) (hp : 1 ≤ period)
-    (ops : List PApiOp) (hc : clocksOk ops) :
-    ∃ opsW, ops.mapM (newPeriodLimit period quota pre opts).toW = some opsW ∧ WinOk opsW ∧
-      (∀ k w, POpW.take k w ∈ opsW → (w : Int) ≤ period) ∧
-      PSys.runW quota.toNat PSys.init opsW = SpecSysW.run quota.toNat SpecSysW.init opsW := by
-  have key : ∃ opsW, ops.mapM (newPeriodLimit period quota pre opts).toW = some opsW ∧
-      (∀ k w, POpW.take k w ∈ opsW → 1 ≤ w ∧ (w : Int) ≤ period) := by
+/-- **The whole public API of PeriodLimit refines the specification by lives**: ANY number of limiters on one store,
+each built with ANY constructor argument list with `period ≥ 1` (any quota, prefix, any option list — aligned or not),
+and every sequence of takes through them at arbitrary non-negative local clock readings, store clock advances, outages
+and recoveries: no take panics, every window is at least one second and at most its limiter's period, and the replies
+are those of the specification by lives on the Redis keys `keyPrefix + key` with the limit `quota` of the limiter that
+takes. -/
+theorem period_api_refines_spec (ops : List PApiOp) (hc : apiOk ops) :
+    ∃ opsW, ops.mapM PApiOp.toW = some opsW ∧ WinOk opsW ∧
+      PSys.runW PSys.init opsW = SpecSysW.run SpecSysW.init opsW := by
+  have key : ∃ opsW, ops.mapM PApiOp.toW = some opsW ∧ WinOk opsW := by
     induction ops with
-    | nil => exact ⟨[], rfl, fun _ _ h => by simp at h⟩
+    | nil => exact ⟨[], rfl, fun _ _ _ h => by simp at h⟩
     | cons op rest ih =>
-      obtain ⟨restW, hr, hwr⟩ := ih (fun k u hm => hc k u (List.mem_cons_of_mem _ hm))
-      have hop : ∃ o, (newPeriodLimit period quota pre opts).toW op = some o ∧
-          (∀ k w, o = POpW.take k w → 1 ≤ w ∧ (w : Int) ≤ period) := by
+      obtain ⟨restW, hr, hwr⟩ := ih (fun l k u hm => hc l k u (List.mem_cons_of_mem _ hm))
+      have hop : ∃ o, op.toW = some o ∧ (∀ k q w, o = POpW.take k q w → 1 ≤ w) := by
         cases op with
-        | ft ms => exact ⟨.ft ms, rfl, fun _ _ h => by simp at h⟩
-        | down => exact ⟨.down, rfl, fun _ _ h => by simp at h⟩
-        | up => exact ⟨.up, rfl, fun _ _ h => by simp at h⟩
-        | take k u =>
-          obtain ⟨w, hw, h1, h2, _, _⟩ := period_api_window period quota pre opts u hp (hc k u List.mem_cons_self)
-          refine ⟨.take ((newPeriodLimit period quota pre opts).pre ++ k) w.toNat, by simp [PLim.toW, hw], ?_⟩
-          intro k' w' h
+        | ft ms => exact ⟨.ft ms, rfl, fun _ _ _ h => by simp at h⟩
+        | down => exact ⟨.down, rfl, fun _ _ _ h => by simp at h⟩
+        | up => exact ⟨.up, rfl, fun _ _ _ h => by simp at h⟩
+        | take l k u =>
+          obtain ⟨hu, period, quota, pre, opts, hp, hl⟩ := hc l k u List.mem_cons_self
+          subst hl
+          obtain ⟨w, hw, h1, h2, _, _⟩ := period_api_window period quota pre opts u hp hu
+          refine ⟨.take ((newPeriodLimit period quota pre opts).pre ++ k) (newPeriodLimit period quota pre opts).quota.toNat w.toNat,
+            by simp [PApiOp.toW, hw], ?_⟩
+          intro k' q' w' h
           simp at h
-          obtain ⟨_, h⟩ := h
+          obtain ⟨_, _, h⟩ := h
           subst h
           omega
       obtain ⟨o, ho, hwo⟩ := hop
       refine ⟨o :: restW, by simp [List.mapM_cons, ho, hr], ?_⟩
-      intro k w hm
+      intro k q w hm
       rcases List.mem_cons.mp hm with h | h
-      · exact hwo k w h.symm
-      · exact hwr k w h
+      · exact hwo k q w h.symm
+      · exact hwr k q w h
   obtain ⟨opsW, h1, h2⟩ := key
-  exact ⟨opsW, h1, fun k w hm => (h2 k w hm).1, fun k w hm => (h2 k w hm).2,
-    period_refines_spec_windows quota.toNat opsW (fun k w hm => (h2 k w hm).1)⟩
+  exact ⟨opsW, h1, h2, period_refines_spec_windows opsW h2⟩
 
-example : ([PApiOp.take "u" 1790689016, .take "u" 1790689017, .ft 37383000, .take "u" 1790726399, .ft 1000, .take "u" 1790726400].mapM
-      (newPeriodLimit 86400 2 "sms:" [.align]).toW).map (PSys.runW 2 PSys.init)
-    = some [some (.allowed, .nil), some (.hitQuota, .nil), none, some (.overQuota, .nil), none, some (.allowed, .nil)] := by decide
+example : ([PApiOp.take (newPeriodLimit 86400 2 "sms:" [.align]) "u" 1790689016, .take (newPeriodLimit 86400 2 "sms:" [.align]) "u" 1790689017,
+      .take (newPeriodLimit 60 1 "mail:" []) "u" 1790689017, .ft 37383000, .take (newPeriodLimit 86400 2 "sms:" [.align]) "u" 1790726399,
+      .ft 1000, .take (newPeriodLimit 86400 2 "sms:" [.align]) "u" 1790726400].mapM PApiOp.toW).map (PSys.runW PSys.init)
+    = some [some (.allowed, .nil), some (.hitQuota, .nil), some (.hitQuota, .nil), none, some (.overQuota, .nil), none,
+            some (.allowed, .nil)] := by decide
 
 /-! ## NewTokenLimiter: every rate, burst and key -/
 
